@@ -31,8 +31,8 @@ theorem map_idealE_nil (c : Cfg) : (List.range c.W).map (idealE c (fun _ => fals
   apply List.ext_getElem?
   intro w
   by_cases hw : w < c.W
-  · simp [List.getElem?_replicate, hw, idealE_nil, List.getElem?_range hw]
-  · simp [List.getElem?_replicate, hw]
+  · simp [hw, idealE_nil]
+  · simp [hw]
 
 /-- The initial state of a freshly constructed iterator satisfies the joint invariant. -/
 theorem init_J (c : Cfg) (hv : c.ValidI) (hit : c.iterable = true) (hio : c.inOrder = true) :
@@ -58,7 +58,7 @@ theorem init_J (c : Cfg) (hv : c.ValidI) (hit : c.iterable = true) (hio : c.inOr
     refine ⟨by simp, ?_, rfl, (fun w hw => by simp at hw), [], [], rfl, (map_idealE_nil c).symm, rfl, Or.inl ⟨rfl, rfl⟩⟩
     intro w hw
     left
-    simp [List.getElem?_replicate, hw, idealE_nil]
+    simp [hw, idealE_nil]
 
 /-- In a state of a fresh run that satisfies the joint invariant, the stored snapshot is `idealAt` of its
 step. -/
